@@ -352,3 +352,23 @@ def _check_pair_outcomes(ctx, rule, fi, R, label, dimension_unit):
     ctx.ob(rule, fi, fi.node.lineno, f"{label}: returned (value, unit) pairs agree", not bad,
            fact=f"{R.paths} paths, {nret} returning", why='; '.join(sorted(set(bad))[:3]),
            key=f"rescale pair {label.split('[')[0]}")
+
+
+def api_verified(ctx, rule):
+    """Every property whose unit analysis uses the Unit API through summaries at its call sites depends on the API
+    itself being right: the 48 conversion cells, the string wrappers, the storage pair and the prefix table are
+    verified here and count for that property as one obligation (plus one per failing item, reported at its site)."""
+    before = len(ctx.obs)
+    convert_from_cells(ctx, rule)
+    wrappers(ctx, rule)
+    storage_pair(ctx, rule, rule)
+    prefix_table(ctx, rule)
+    new = ctx.obs[before:]
+    failing = [o for o in new if not o.ok]
+    del ctx.obs[before:]
+    ctx.obs.extend(failing)
+    fi = ctx.model.func('Unit.convert_from')
+    ctx.ob(rule, fi, fi.node.lineno, 'the Unit API used through summaries is verified (conversion cells, wrappers, '
+                                     'storage pair, prefix table)', not failing,
+           fact=f"{len(new)} items, {len(failing)} failing", why='a conversion this property relies on is wrong',
+           key='unit api summary')
